@@ -56,6 +56,25 @@ pub async fn end_of_workload(h: &mut Hyb) {
                 crate::simdev::quiesce().await;
                 c.storage().wait().await;
                 crate::simdev::quiesce().await;
+                // quiescent: whatever the disk tier still claims to hold must be loadable from where its index points (a
+                // block must not have been cleaned or rewritten while it still backed indexed entries)
+                let keys = h.case.get("keys").max(1) as u64;
+                for k in 0..keys {
+                    if c.storage().may_contains(&k) {
+                        hist::probe("c09_claimed_key_loaded");
+                        match c.storage().load(&k).await {
+                            Ok(foyer::Load::Entry { key, .. }) if key == k => {}
+                            Ok(foyer::Load::Piece { .. }) => {}
+                            Ok(foyer::Load::Entry { key, .. }) => {
+                                hist::violation("C09", "claimed-but-unloadable", format!("the disk tier claims key {k}; loading from the recorded position returns key {key}"), &[]);
+                            }
+                            Ok(foyer::Load::Miss) | Ok(foyer::Load::Throttled) => {
+                                hist::violation("C09", "claimed-but-unloadable", format!("the disk tier still claims to hold key {k} (may_contains) after everything has been flushed, but loading it from the recorded position misses: its block was reclaimed or rewritten while it still backed the entry"), &[]);
+                            }
+                            Err(e) => hist::violation("C09", "claimed-but-unloadable", format!("load of claimed key {k} failed: {e}"), &[]),
+                        }
+                    }
+                }
                 drop(c);
                 let _ = sweep(h, "final-sweep").await;
                 if let Some(c) = h.cache.clone() {
